@@ -30,7 +30,10 @@ CONSTANTS Transports,  \* subset of {"stream", "dgram"}
           IdLimit,     \* 0: largest id given by the width; > 0: scaled down limit (wrap-around in reach of TLC)
           MaxReq,      \* requests awaiting a reply per behaviour
           MaxPlain,    \* messages sent without await
-          MaxStray     \* forged / duplicated replies injected by the environment
+          MaxStray,    \* forged / duplicated replies injected by the environment
+          BActs,       \* what B's handler does with a request: subset of {"none", "reply", "reply2"}
+          BHrets,      \* ... and returns
+          SyncMax      \* messages handed to one sync call (0: no sync)
 
 VARIABLES tr, cid, wait, out, net, held, arr, hg, cnt, forged, xobs
 xstate == <<tr, cid, wait, out, net, held, arr, hg, cnt, forged>>
@@ -77,19 +80,20 @@ BSame == UNCHANGED vars                 \* nothing happens at B
 
 ---------------------------------------------------------------------------
 (* requester: reserve an id for the next message *)
-AwaitOk(n) ==
+AwaitOk(n, tok) ==      \* tok: the caller's own name for itself (callback argument)
   /\ cid = 0 /\ Fresh(n) /\ Len(out) < MaxReq
+  /\ \A r \in DOMAIN out : out[r].tok # tok
   /\ cid' = n
   /\ wait' = Append(Compact, [id |-> n, w |-> Cur + 1])
-  /\ out' = Append(out, [id |-> n, st |-> "reserved", got |-> 0])
+  /\ out' = Append(out, [id |-> n, st |-> "reserved", got |-> 0, tok |-> tok])
   /\ UNCHANGED <<tr, net, held, arr, hg, cnt, forged>> /\ BSame
-  /\ X("await", [w |-> Cur + 1], [ret |-> "ok"] @@ NoCalls, <<>>)
+  /\ X("await", [w |-> tok], [ret |-> "ok"] @@ NoCalls, <<>>)
 \* refused: a message is being composed, or every id of the width is taken
-AwaitRefused ==
+AwaitRefused(tok) ==
   /\ cid # 0 \/ NoneFree
   /\ Len(out) < MaxReq
   /\ UNCHANGED xstate /\ BSame
-  /\ X("await", [w |-> Cur + 1], [ret |-> "refused"] @@ NoCalls, <<>>)
+  /\ X("await", [w |-> tok], [ret |-> "refused"] @@ NoCalls, <<>>)
 
 (* requester: push data and complete the message.  The header carries cid  *)
 (* (zero: no answer wanted).  A datagram end that holds unprocessed input  *)
@@ -123,7 +127,7 @@ Handled(p) ==      \* [wait, out, calls] after message p
   THEN LET i == SlotOf(n)  r == wait[i].w IN
        [wait |-> FreeSlot(i),
         out |-> [out EXCEPT ![r].st = "answered", ![r].got = @ + 1],
-        calls |-> <<[w |-> r, data |-> p.data]>>]
+        calls |-> <<[w |-> out[r].tok, data |-> p.data]>>]
   ELSE [wait |-> wait, out |-> out, calls |-> <<>>]
 AExp(calls) == [calls |-> calls, seen |-> <<>>, wire |-> <<>>]
 OrderOK(dir, k) == k \in DOMAIN net[dir] /\ (tr = "stream" => k = 1)
@@ -142,6 +146,11 @@ DeliverArr ==
   /\ wait' = h.wait /\ out' = h.out /\ arr' = SubSeq(arr, 2, Len(arr))
   /\ UNCHANGED <<tr, cid, held, net, hg, cnt, forged>> /\ BSame
   /\ X("deliver", [dir |-> "BA", k |-> 0], AExp(h.calls), <<p.g>>)
+\* nothing was left over (recorded executions only: the caller drains after sync)
+DeliverArrNone ==
+  /\ arr = <<>> /\ held = <<>>
+  /\ UNCHANGED xstate /\ BSame
+  /\ X("deliver", [dir |-> "BA", k |-> 0], AExp(<<>>), <<>>)
 \* datagram end: receive now, dispatch later
 Hold(k) ==
   /\ tr = "dgram" /\ OrderOK("BA", k) /\ held = <<>> /\ arr = <<>> /\ IsReply(net.BA[k].id)
@@ -168,7 +177,7 @@ HandleSeq(ps, w, o, calls) ==
           THEN LET i == MinOf(live)  r == w[i].w IN
                HandleSeq(SubSeq(ps, 2, Len(ps)), [w EXCEPT ![i].w = 0],
                          [o EXCEPT ![r].st = "answered", ![r].got = @ + 1],
-                         Append(calls, [w |-> r, data |-> p.data]))
+                         Append(calls, [w |-> o[r].tok, data |-> p.data]))
           ELSE HandleSeq(SubSeq(ps, 2, Len(ps)), w, o, calls)
 Sync(ks, n) ==
   LET moved == arr \o [i \in DOMAIN ks |-> net.BA[ks[i]]]
@@ -186,6 +195,13 @@ Sync(ks, n) ==
   /\ UNCHANGED <<tr, cid, held, hg, cnt, forged>> /\ BSame
   /\ X("sync", [ks |-> ks], [ret |-> "any", calls |-> done.calls, wire |-> <<>>],
        [i \in 1..n |-> moved[i].g])
+
+(* requester: the connection is closed; everybody still waiting is told to give up (no reply is made up) *)
+CloseA ==
+  /\ cid' = 0 /\ wait' = <<>> /\ held' = <<>> /\ arr' = <<>>
+  /\ out' = [r \in DOMAIN out |-> IF Waiting(r) THEN [out[r] EXCEPT !.st = "cancelled"] ELSE out[r]]
+  /\ UNCHANGED <<tr, net, hg, cnt, forged>> /\ BSame
+  /\ X("close", [x |-> 0], [ret |-> "ok", calls |-> <<>>], <<>>)
 
 (* environment: a reply nobody at B sent (duplicate, forgery) is in flight to A *)
 StrayBytes(b, data) ==
@@ -213,10 +229,10 @@ WireExp(frames) == [i \in DOMAIN frames |-> [dir |-> "BA", id |-> frames[i].id, 
 DeliverB(k, act, data, hret, h) ==
   LET p == net.AB[k] IN
   /\ OrderOK("AB", k) /\ ~IsReply(p.id)
-  /\ IF act = "defer" THEN StreamDefer(p.id, p.data, h)
-     ELSE StreamRequest(p.id, p.data, act, data, hret)
+  /\ IF act = "defer" /\ ~AllZero(p.id) THEN StreamDefer(p.id, p.data, h)
+     ELSE StreamRequest(p.id, p.data, IF act = "defer" THEN "none" ELSE act, data, hret)   \* (nothing to defer)
   /\ net' = [AB |-> RemoveAt(net.AB, k), BA |-> net.BA \o Wire(obs'.exp.frames, p.g)]
-  /\ hg' = IF act = "defer" THEN [hg EXCEPT ![h] = p.g] ELSE hg
+  /\ hg' = IF act = "defer" /\ ~AllZero(p.id) THEN [hg EXCEPT ![h] = p.g] ELSE hg
   /\ UNCHANGED <<tr, cid, wait, out, held, arr, cnt, forged>>
   /\ X("deliver", [dir |-> "AB", k |-> k, act |-> act, data |-> data, hret |-> hret, h |-> h],
        [calls |-> <<>>, seen |-> obs'.exp.seen, wire |-> WireExp(obs'.exp.frames), r2 |-> obs'.exp.r2], <<>>)
@@ -243,23 +259,23 @@ XInit == \E t \in Transports, m \in ConnWidths : XInitWith(t, m)
 
 Tag(p)  == IF p.data = <<>> THEN <<9>> ELSE <<p.data[1], 9>>      \* the answer names the request it is for
 XNext ==
-  \/ \E n \in IdCand \cup {OpReserve.id} : AwaitOk(n)
-  \/ AwaitRefused
+  \/ \E n \in IdCand \cup {OpReserve.id} : AwaitOk(n, Cur + 1)
+  \/ AwaitRefused(Cur + 1)
   \/ Send(IF cid # 0 THEN <<Cur, 7>> ELSE <<0, 7>>) /\ (cid = 0 => cnt.plain < MaxPlain)
   \/ \E k \in DOMAIN net.BA : DeliverA(k) \/ Hold(k) \/ Drop("BA", k)
   \/ DeliverArr \/ DispatchHeld
   \/ \E k \in DOMAIN net.AB : Drop("AB", k)
-  \/ \E k \in DOMAIN net.AB, act \in {"none", "reply", "reply2"}, hret \in {0, -3} :
+  \/ \E k \in DOMAIN net.AB, act \in BActs, hret \in BHrets :
         DeliverB(k, act, Tag(net.AB[k]), hret, 0)
   \/ \E k \in DOMAIN net.AB, h \in 1..MaxH :
-        DeliverB(k, "defer", <<>>, 0, h) /\ \A j \in 1..(h - 1) : handles[j] # <<>>
+        handles[h] = <<>> /\ (\A j \in 1..(h - 1) : handles[j] # <<>>) /\ DeliverB(k, "defer", <<>>, 0, h)
   \/ \E h \in 1..MaxH : DReplyB(h, <<hg[h], 8>>)
   \/ LateB(<<5>>)
   \/ \E of \in 0..Len(out) : Stray(of, <<99>>)
 XNextSync ==
-  \/ \E k1 \in DOMAIN net.BA : \E n \in 0..(Len(arr) + 1) : Sync(<<k1>>, n)
-  \/ \E k1, k2 \in DOMAIN net.BA : \E n \in 0..(Len(arr) + 2) : Sync(<<k1, k2>>, n)
-  \/ \E n \in 0..Len(arr) : arr # <<>> /\ Sync(<<>>, n)
+  \/ SyncMax >= 1 /\ \E k1 \in DOMAIN net.BA : \E n \in 0..(Len(arr) + 1) : Sync(<<k1>>, n)
+  \/ SyncMax >= 2 /\ \E k1, k2 \in DOMAIN net.BA : \E n \in 0..(Len(arr) + 2) : Sync(<<k1, k2>>, n)
+  \/ SyncMax >= 1 /\ \E n \in 0..Len(arr) : arr # <<>> /\ Sync(<<>>, n)
 XSpec == XInit /\ [][XNext \/ XNextSync]_xvars
 
 ---------------------------------------------------------------------------
@@ -291,7 +307,8 @@ HeaderOK == \A i \in DOMAIN net.AB :
 
 (* action properties *)
 AStep == xobs'.a \in {"deliver", "dispatch", "sync", "hold"} /\ "calls" \in DOMAIN xobs'.exp
-Called == {xobs'.exp.calls[i].w : i \in DOMAIN xobs'.exp.calls}
+ReqOf(tok) == CHOOSE r \in DOMAIN out : out[r].tok = tok
+Called == {ReqOf(xobs'.exp.calls[i].w) : i \in DOMAIN xobs'.exp.calls}
 \* a reply is handed to a caller that was waiting for it, once, and that ends the wait;
 \* everybody else is left alone
 RightWaiter == [][AStep =>
@@ -303,7 +320,7 @@ RightWaiter == [][AStep =>
 \* without forged replies the answer B gave to request r reaches the caller of request r
 EndToEnd == [][(AStep /\ ~forged') =>
   /\ Len(xobs'.exp.calls) = Len(xobs'.g)
-  /\ \A i \in DOMAIN xobs'.g : xobs'.exp.calls[i].w = xobs'.g[i]
+  /\ \A i \in DOMAIN xobs'.g : xobs'.g[i] \in DOMAIN out /\ xobs'.exp.calls[i].w = out[xobs'.g[i]].tok
   ]_xvars
 \* an id is handed out only while no waiting caller holds it; the code's choice is such an id
 ReserveTiers == [][(xobs'.a = "await") =>
@@ -313,5 +330,5 @@ ReserveTiers == [][(xobs'.a = "await") =>
   ]_xvars
 \* ids come free only by a reply or a cancellation
 Recycle == [][\A r \in DOMAIN out : (Waiting(r) /\ ~Waiting(r)') =>
-                 (xobs'.a \in {"deliver", "dispatch", "sync", "send"})]_xvars
+                 (xobs'.a \in {"deliver", "dispatch", "sync", "send", "close", "init"})]_xvars
 =============================================================================
